@@ -25,6 +25,29 @@ def decide(assertions, timeout_ms=60000):
     return 'unknown', s.reason_unknown(), dt
 
 
+def contains_op(e, kinds, seen=None):
+    seen = set() if seen is None else seen
+    if e.get_id() in seen:
+        return False
+    seen.add(e.get_id())
+    if z3.is_app(e) and e.decl().kind() in kinds:
+        return True
+    return any(contains_op(c, kinds, seen) for c in e.children())
+
+
+def decide_relaxed(assertions, hard_kinds=(z3.Z3_OP_TO_INT, z3.Z3_OP_IS_INT), timeout_ms=60000):
+    """First ask the query without the assertions that mention hard operators (to_int ...).  Dropping assumptions only
+    weakens the premise, so `unsat` of the relaxed query is `unsat` of the full one; otherwise ask the full query."""
+    easy = [a for a in assertions if not contains_op(a, hard_kinds)]
+    if len(easy) < len(assertions):
+        v, m, dt = decide(easy, timeout_ms)
+        if v == 'unsat':
+            return v, m, dt
+        v2, m2, dt2 = decide(assertions, timeout_ms)
+        return v2, m2, dt + dt2
+    return decide(assertions, timeout_ms)
+
+
 def to_smt2(assertions, logic='ALL'):
     s = z3.Solver()
     for a in assertions:
